@@ -169,7 +169,8 @@ class FieldsWorld(World):
             annot = int(coll["t"] == "dict" and rng.chance(0.4))
             return {"kind": "register", "access": racc, "coll": coll, "annot": annot,
                     "annot_base": int(bool(annot) and rng.chance(0.3)),
-                    "annot_sub": int(bool(annot) and rng.chance(0.25))}
+                    "annot_sub": int(bool(annot) and rng.chance(0.25)),
+                    "annot_late_access": int(bool(annot) and rng.chance(0.3))}
         if rng.chance(0.2):
             from worlds.components import gen_register
             return {"kind": "regreal", "reg": gen_register(rng)}
@@ -264,6 +265,7 @@ class FieldsWorld(World):
                     (("w" not in l["access"]) or ("w" in racc))
                     for _, l in leaves if l["access"] != "nc")
         coll = build(config["coll"])
+        late_access = False
         try:
             if config.get("annot") and isinstance(coll, dict):
                 base = csr.Register
@@ -276,6 +278,11 @@ class FieldsWorld(World):
                     base()
                     stats.probe("annotated_subclass_of_instantiated_annotated_class")
                     cls = type("AnnotReg", (base,), {"__annotations__": dict(coll)})
+                elif config.get("annot_late_access"):
+                    # the class states no access mode; it is given when the register is created
+                    cls = type("AnnotReg", (base,), {"__annotations__": dict(coll)})
+                    late_access = True
+                    stats.probe("annotated_class_without_class_level_access")
                 else:
                     cls = type("AnnotReg", (base,), {"__annotations__": dict(coll)}, access=racc)
                 if config.get("annot_sub"):
@@ -283,7 +290,7 @@ class FieldsWorld(World):
                     # has the fields of the class it extends
                     cls = type("SubReg", (cls,), {"verif_marker": 1})
                     stats.probe("unannotated_subclass_of_annotated_class")
-                reg = cls()
+                reg = cls(access=racc) if late_access else cls()
             else:
                 reg = csr.Register(coll, access=racc)
             ok = True
